@@ -87,6 +87,8 @@ CATALOGUE = [
     ("comma-after-mnemonic", ["{I}«mov », r0"], "invalid-insn", "critical", ("T",)),
     ("bad-caret-prefix", ["{I}«.word »^Q5"], "invalid-expression", "critical", ("T",)),
     # an infix operator without its right operand, the offending token separated from it by blanks, a tab, a comment or a line break
+    ("dangling-comma-insn", ["{I}«mov r0   », "], "invalid-operand", "critical", ("T",)),
+    ("dangling-comma-insn-next-line", ["{I}«mov r0 ; why", "\t », "], "invalid-operand", "critical", ("T",)),
     ("dangling-operator-comma", ["{I}«.word 5 *   »,2"], "invalid-expression", "critical", ("T",)),
     ("dangling-operator-tab", ["{I}«mov #5 & \t», r0"], "invalid-expression", "critical", ("T",)),
     ("dangling-operator-bracket", ["{I}«.word <5 /  »>"], "invalid-expression", "critical", ("T",)),
